@@ -55,7 +55,8 @@ def gen_case(rnd):
 
 class OpBoom(Exception): pass
 class OpBaseBoom(BaseException): pass
-FAULTS = {"TypeError": TypeError, "ValueError": ValueError, "RuntimeError": RuntimeError, "user": OpBoom, "base": OpBaseBoom}
+FAULTS = {"TypeError": TypeError, "ValueError": ValueError, "RuntimeError": RuntimeError, "RecursionError": RecursionError, "MemoryError": MemoryError,
+          "KeyboardInterrupt": KeyboardInterrupt, "user": OpBoom, "base": OpBaseBoom}
 
 def run_impl(factors, hermitian, nparams, reqs, fault=None):
     """`fault = (k, kind)`: the k-th multiplication of elements raises once; every request is then made twice"""
@@ -131,7 +132,7 @@ def main(seed, ncases, driver, out):
             fouts, raised, _ = run_impl(factors, hermitian, nparams, reqs, fault=(fk, kind))
             want_name = FAULTS[kind].__name__
             ok_raise = len(raised) == 1 and (raised[0].split(":")[0] == want_name and (kind != "RuntimeError" or True))
-            if kind == "RuntimeError": ok_raise = len(raised) == 1 and raised[0].startswith("RuntimeError")
+            if kind in ("RuntimeError", "RecursionError"): ok_raise = len(raised) == 1 and raised[0].startswith("RuntimeError")   # wrapped ("Failed to evaluate")
             if not ok_raise:
                 failures.append({"case": c, "kind": "fault-not-propagated", "input": js, "fault": [fk, kind], "raised": raised})
             elif fouts != mvals:
